@@ -31,7 +31,7 @@ EXPLANATION = (
 ASSUMPTIONS = [
     "joblib.Parallel runs each delayed call exactly once (model table); workers write disjoint or identical bytes at the decided offsets",
     "the conversion vector is 1.0 on sync channels (C09-D1), so * 1/sample2volts leaves integer sync words exact",
-    "recordings are longer than nprocesses * NBATCH samples (shorter ones start a worker past the end - observation, see DESIGN.md)",
+    "a worker whose start lies in the last 2*TAPER samples returns before processing (decided by D1 'first batch is real'; was an assumption until F15 was repaired)",
 ]
 
 OUTER = "ibldsp.voltage.decompress_destripe_cbin"
